@@ -22,7 +22,10 @@ def crash_images(C04, rng, base, n_images, multi_file=False):
         # the rollover limit hook: a log file is full after 128 records, so the history spreads over several log files;
         # compactions (every 100 entries) then cut the log across file boundaries and remove whole files
         n = rng.randrange(420, 700)
-    reqs = [cs(keys[i % 7], "v%d" % i, i + 1) for i in range(n)]
+    # every third request writes a key of its own (round 7): with the seven cyclic keys alone the last seven requests
+    # determine the whole served state, and a lost PREFIX of the history (a snapshot that is gone) would be invisible
+    key_of = [("u%d\u0002g" % i) if i % 3 == 0 else keys[i % 7] for i in range(n)]
+    reqs = [cs(key_of[i], "v%d" % i, i + 1) for i in range(n)]
     case = {"threshold": rng.choice([6, 10, 13]), "phases": [{"reqs": reqs}], "plants": [], "pace": True}
     if multi_file:
         case = {"threshold": rng.choice([100, 150, 100000]), "log_limit": 43, "phases": [{"reqs": reqs}], "plants": [], "pace": True,
@@ -59,9 +62,18 @@ def crash_images(C04, rng, base, n_images, multi_file=False):
         if m[0] == "U" and name(m).startswith("log_"):
             for q in range(max(1, i - 2), min(len(j), i + 6)):
                 points.add(q)
-    points = sorted(points)
+    # round 7: the window after a snapshot file is removed, up to the next rewrite of the catalogue record, is always
+    # taken (at most 3 removals, 4 points each): the catalogue on disk must never name a snapshot file that is gone
+    must = set()
+    removals = [i for i, m in enumerate(j) if m[0] == "U" and name(m).startswith("snapshot_")]
+    for i in (removals if len(removals) <= 3 else rng.sample(removals, 3)):
+        nxt = next((q for q in range(i + 1, len(j)) if j[q][0] == "W" and name(j[q]) == "index" and j[q][2] == 8), len(j))
+        for q in range(i + 1, min(nxt + 1, i + 5)):
+            must.add(q)
+    points = sorted(points - must)
     if len(points) > n_images:
         points = sorted(rng.sample(points, n_images))
+    points = sorted(set(points) | must)
     jobs = []
     for p in points:
         files = {}
@@ -91,22 +103,15 @@ def crash_images(C04, rng, base, n_images, multi_file=False):
         got = {}
         for e in o["start_dump"]["config"]["keys"]:
             got[e["key"]] = (e["get"] or {}).get("content") if e.get("get") else None
-        # the request index (1-based) of the value each key serves
-        idx = {}
-        okv = True
-        for k in keys:
-            v = got.get(k)
-            if v is None:
-                idx[k] = 0
-            elif v.startswith("v") and v[1:].isdigit() and keys[int(v[1:]) % 7] == k:
-                idx[k] = int(v[1:]) + 1
-            else:
-                okv = False
-        m = max(idx.values()) if idx else 0
-        # prefix-consistent: every key serves its last write among the first m requests
-        want = {k: 0 for k in keys}
+        # the request index (1-based) of the newest value served; prefix-consistent: the served state is exactly the
+        # state after the first m requests (every key its last write among them, keys written later absent)
+        okv = all(v is None or (v.startswith("v") and v[1:].isdigit() and int(v[1:]) < n and key_of[int(v[1:])] == k)
+                  for k, v in got.items())
+        m = max([int(v[1:]) + 1 for v in got.values() if v is not None] or [0]) if okv else 0
+        want = {}
         for r in range(1, m + 1):
-            want[keys[(r - 1) % 7]] = r
+            want[key_of[r - 1]] = "v%d" % (r - 1)
+        idx = {k: v for k, v in got.items() if v is not None}
         m_lo = max(0, lap - basei)
         stats.append((p, lap, m_lo, m))
         if not okv or want != idx:
